@@ -169,4 +169,6 @@ def rule_cached_values(ctx):
     who_calls(ctx, 'K3', 'store::StoredManifest::new', ['engine::PubPoint::process_collected'], floor=1)
 
 
-RULES = [rule_table, rule_gate, rule_cached_values]
+from props.C40 import rule_retain  # noqa: E402  (the stored manifest is the rollback reference: cleanup must not drop it before it expires)
+
+RULES = [rule_table, rule_gate, rule_cached_values, rule_retain]
